@@ -21,6 +21,15 @@ CLAIMED = {
             "for <= 4/6 packs with UNBOUNDED positive revision counts against an arbitrary valid distribution; L3: the real "
             "_do_autopack over stub packs. L1 and L2 together give the property for every collection within those bounds.",
             "total = sum of per-pack counts (CombinedGraphIndex.key_count); plan execution (packer, I/O) outside"),
+    "C13": ("rename journal, rollback and the apply phases (single failure)",
+            "The real InventoryTreeTransform.apply / _apply_removals / _apply_insertions and the real _FileMover over an "
+            "abstract flat file system with ONE failure injected at a SYMBOLIC operation index (symbolic errno): a failure in "
+            "any rename restores the file system exactly and leaves the metadata untouched, success yields exactly the "
+            "transformed layout with updated metadata, files missing on disk are handled; a failure while discarding "
+            "replaced content is the recorded known finding. Construction of the transform's bookkeeping, directories "
+            "with children, limbo cleanup and the git copy of apply are outside.",
+            "transform object = stub instance of the real class with hand-filled bookkeeping; os.rename / delete_any = "
+            "abstract file system; a second failure during rollback is outside"),
     "C16": ("uncommit tip / pending-merge arithmetic",
             "Decides the second sentence of C16 (tip moves to the requested left-hand ancestor, removed merges re-recorded "
             "as pending merges, bound-branch ordering, dry run, locks released) for the real breezy.uncommit.uncommit over "
@@ -166,7 +175,6 @@ NOT_APPLICABLE = {
     "C10": "the fast paths under comparison are compiled (dirstate ProcessEntry, CHK differ); inputs are tree shapes",
     "C11": "a directory walk over a real file system combined with the ignore matcher; the matcher itself is decided under C48",
     "C12": "outcomes are file-system contents after revert/merge/remove through TreeTransform and dirstate; no symbolic-input kernel",
-    "C13": "fault position in a concrete sequence of os.rename/unlink calls is the only variable (enumeration of concrete runs on a real file system)",
     "C14": "compares a preview tree with a real applied working tree (inventory + file system); inputs are operation sequences",
     "C15": "composition of TreeTransform, merge and shelf serialisation (pack container + bencode, compiled) on a real working tree",
     "C17": "tree-level merges need real trees, TreeTransform and the compiled merge3/patiencediff matcher; the per-attribute decision rules are decided under C18",
